@@ -287,6 +287,12 @@ func (s *OutlineServer) runConfig(config Config) (func() error, error) {
 
 	err := <-startErrCh
 	if err != nil {
+		// Stop the partially started config, otherwise the listeners it had
+		// already acquired keep serving.
+		stopCh <- struct{}{}
+		if stopErr := <-stopErrCh; stopErr != nil {
+			slog.Warn("Failed to stop partially started config.", "err", stopErr)
+		}
 		return nil, err
 	}
 	return func() error {
